@@ -269,10 +269,9 @@ class Sequencer(object):
                 self.sleep(ms)
                 self.notify_listeners(self.MSG_SLEEP, {"s": ms})
             else:
-                # warning: this could lead to some strange behaviour. OTOH.
-                # Leaving gaps is not the way Bar works. should we do an
-                # integrity check on bars first?
-                return {}
+                # Nothing is sounding and nothing is left to start: the bars
+                # were not full (rests are entries too, so there are no gaps)
+                break
 
             # Add shortest interval to tick
             tick += 1.0 / shortest
